@@ -61,7 +61,9 @@ func construct(inner []string, keys []string, structs bool) []string {
 			out = append(out, "map["+k+"]"+t)
 		}
 		if structs {
-			out = append(out, "struct {\n\tA "+t+" `json:\"a,omitempty\" x:\"1\"`\n\tB int\n}", "struct {\n\tdep.T\n\t*L\n\tC "+t+"\n}")
+			out = append(out, "struct {\n\tA "+t+" `json:\"a,omitempty\" x:\"1\"`\n\tB int\n}", "struct {\n\tdep.T\n\t*L\n\tC "+t+"\n}",
+				// tags with per-cent signs (a format string to anything that prints them carelessly)
+				"struct {\n\tP "+t+" `default:\"100%\" layout:\"%Y-%m-%d %%s %v\"`\n}")
 		}
 	}
 	return out
